@@ -27,6 +27,9 @@ type Ev struct {
 	// (<rpc-reply>, description to-core-sw1#, $1$abc$): only a search window that is cut back to a
 	// line start keeps line-anchored patterns from matching in the middle of such a line.
 	LongOut bool `json:"long_out,omitempty"`
+	// Loose: Out holds a whole line that the default prompt pattern accepts although this event waits
+	// for a response of its own.
+	Loose bool `json:"loose,omitempty"`
 }
 
 // Cmd is a plain command (SendCommand / Channel.SendInput).
@@ -83,6 +86,10 @@ type Desc struct {
 	CompText  string     `json:"comp_text,omitempty"` // what the device prints when it finishes early (kind text)
 	CompRe    string     `json:"comp_re,omitempty"`
 	CompRe2   string     `json:"comp_re2,omitempty"` // a second completion pattern the device never shows
+	CompRe3   string     `json:"comp_re3,omitempty"` // a third one
+	// CompCap: spare capacity of the slice the caller passes with WithCompletePatterns (cap = len +
+	// CompCap): 0 is a slice literal, > 0 a slice collected with append / make(.., 0, n).
+	CompCap int `json:"comp_cap,omitempty"`
 	// FinishBoth: when the device finishes early it also prints text that matches the event's expected
 	// response, behind the completion text and in the same read (atomic segment): completion wins.
 	FinishBoth bool  `json:"finish_both,omitempty"`
@@ -221,7 +228,18 @@ func genInput(r *rand.Rand, term byte) string {
 	if r.Intn(3) == 0 {
 		run = 2 + r.Intn(2)
 	}
-	return body + strings.Repeat(string(term), run)
+	in := body + strings.Repeat(string(term), run)
+	if r.Intn(6) == 0 {
+		// trailing blanks: typed, hence echoed, like every other byte of the input
+		in += randStr(r, "  \t", 1+r.Intn(3))
+	}
+	return in
+}
+
+// splitBlanks splits s into what precedes its trailing spaces/tabs and those blanks.
+func splitBlanks(s string) (core, blanks string) {
+	core = strings.TrimRight(s, " \t")
+	return core, s[len(core):]
 }
 
 // termRun is the trailing run of copies of s's final byte.
@@ -231,6 +249,12 @@ func termRun(s string) string {
 		i--
 	}
 	return s[i:]
+}
+
+// termRunBlanks is the trailing run of the final non-blank byte plus the trailing blanks.
+func termRunBlanks(s string) string {
+	core, blanks := splitBlanks(s)
+	return termRun(core) + blanks
 }
 
 // isSubseq reports whether every byte of in occurs in out, in order, each output byte used at most
@@ -423,6 +447,7 @@ func genDialogueOnce(r *rand.Rand, plain bool, base *Desc, op int) Desc {
 	// completion patterns
 	if base != nil {
 		d.Complete, d.CompText, d.CompRe, d.CompRe2 = base.Complete, base.CompText, base.CompRe, base.CompRe2
+		d.CompRe3, d.CompCap = base.CompRe3, base.CompCap
 		if d.Complete != "" && r.Intn(3) != 0 {
 			d.FinishAt = r.Intn(n)
 		}
@@ -433,6 +458,12 @@ func genDialogueOnce(r *rand.Rand, plain bool, base *Desc, op int) Desc {
 			tok := "zzdone" + randStr(r, "abcdefghijklmnopqrstuvwxy", 3)
 			d.CompText = []string{"Operation " + tok + " finished", tok, "% " + tok + ": nothing to do"}[r.Intn(3)]
 			d.CompRe = tok
+			if r.Intn(3) == 0 {
+				d.CompRe2 = "zzabort" + randStr(r, "abcdefghijklmnopqrstuvwxy", 3) + `\w*`
+				if r.Intn(2) == 0 {
+					d.CompRe3 = `(?i)zzfatal` + randStr(r, "abcdefghijklmnopqrstuvwxy", 2)
+				}
+			}
 		case 2:
 			d.Complete = "prompt"
 			d.CompRe = defaultPromptPattern
@@ -441,11 +472,15 @@ func genDialogueOnce(r *rand.Rand, plain bool, base *Desc, op int) Desc {
 			d.FinishAt = r.Intn(n)
 		}
 	}
+	if d.Complete != "" && base == nil {
+		d.CompCap = r.Intn(3)
+	}
 	var compRes []*regexp.Regexp
 	if d.Complete != "" {
 		compRes = append(compRes, regexp.MustCompile(d.CompRe))
-		if d.CompRe2 != "" {
-			compRes = append(compRes, regexp.MustCompile(d.CompRe2))
+		compRes = nil
+		for _, p := range d.compStrings() {
+			compRes = append(compRes, regexp.MustCompile(p))
 		}
 	}
 	for k := 0; k < n; k++ {
@@ -457,7 +492,7 @@ func genDialogueOnce(r *rand.Rand, plain bool, base *Desc, op int) Desc {
 		} else {
 			e.Input = genInput(r, term())
 			if r.Intn(3) == 0 {
-				e.Input = []string{"y", "n", "yes", "", "q", "nn", "yess"}[r.Intn(7)] + termRun(e.Input)
+				e.Input = []string{"y", "n", "yes", "", "q", "nn", "yess"}[r.Intn(7)] + termRunBlanks(e.Input)
 			}
 		}
 		withResp := r.Intn(3) != 0
@@ -474,12 +509,24 @@ func genDialogueOnce(r *rand.Rand, plain bool, base *Desc, op int) Desc {
 	// a hidden event's input never has to be unique-terminated; a visible one must be
 	for k := range d.Events {
 		e := &d.Events[k]
-		if !e.Hidden && !strings.ContainsAny(e.Input[len(e.Input)-1:], termChars) {
-			e.Input += string(term())
+		if core, blanks := splitBlanks(e.Input); !e.Hidden && (core == "" || !strings.ContainsAny(core[len(core)-1:], termChars)) {
+			e.Input = core + string(term()) + blanks
 		}
 	}
 	if d.Complete != "" && d.FinishAt >= 0 && d.Events[d.FinishAt].Resp != "" && r.Intn(3) == 0 {
 		d.FinishBoth = true
+	}
+	// the last event waits for the prompt: earlier events that wait for a response of their own may
+	// see prompt-looking progress lines first (not a completion pattern of kind text, not their
+	// response: nothing to them)
+	if n >= 2 && d.Complete != "prompt" && d.Events[n-1].Resp == "" {
+		for k := 0; k < n-1; k++ {
+			if e := &d.Events[k]; e.Resp != "" && r.Intn(2) == 0 {
+				i := r.Intn(len(e.Out) + 1)
+				e.Out = append(e.Out[:i:i], append([]string{looseLines[r.Intn(len(looseLines))]}, e.Out[i:]...)...)
+				e.Loose = true
+			}
+		}
 	}
 	// an answer longer than the search depth with prompt-looking line tails, to an event that waits
 	// for the prompt
@@ -534,7 +581,7 @@ func genDialogueOnce(r *rand.Rand, plain bool, base *Desc, op int) Desc {
 			d.Fresh = true // judged, but with its own class key: see freshPerMille
 			// nothing else in such a case: no completion patterns, no follow-up commands
 			d.Complete, d.CompText, d.CompRe, d.FinishAt, compRes = "", "", "", -1, nil
-			d.FinishBoth = false
+			d.FinishBoth, d.CompRe2, d.CompRe3, d.CompCap = false, "", "", 0
 		} else {
 			nw = 1
 		}
@@ -717,6 +764,20 @@ func (d *Desc) Sent() int {
 		return d.FinishAt + 1
 	}
 	return len(d.Events)
+}
+
+// compStrings lists the completion patterns of the operation.
+func (d *Desc) compStrings() []string {
+	if d.Complete == "" {
+		return nil
+	}
+	s := []string{d.CompRe}
+	for _, x := range []string{d.CompRe2, d.CompRe3} {
+		if x != "" {
+			s = append(s, x)
+		}
+	}
+	return s
 }
 
 func (d *Desc) hasOpt(o string) bool {
@@ -933,7 +994,11 @@ func GenMulti(r *rand.Rand) Desc {
 	d.CompRe = tok
 	if r.Intn(2) == 0 {
 		d.CompRe2 = "zzabort" + randStr(r, "abcdefghijklmnopqrstuvwxy", 3) + `\w*`
+		if r.Intn(2) == 0 {
+			d.CompRe3 = `(?i)zzfatal` + randStr(r, "abcdefghijklmnopqrstuvwxy", 2)
+		}
 	}
+	d.CompCap = r.Intn(3)
 	n := 3 + r.Intn(3)
 	uses := make([]bool, n)
 	for {
@@ -1026,8 +1091,9 @@ func (d *Desc) reactionsEndAtTheirEnd(promptRe *regexp.Regexp) bool {
 	comp := []*regexp.Regexp{}
 	if d.Complete != "" {
 		comp = append(comp, regexp.MustCompile(d.CompRe))
-		if d.CompRe2 != "" {
-			comp = append(comp, regexp.MustCompile(d.CompRe2))
+		comp = nil
+		for _, p := range d.compStrings() {
+			comp = append(comp, regexp.MustCompile(p))
 		}
 	}
 	for k := 0; k < d.Sent(); k++ {
